@@ -54,3 +54,43 @@ def check_trace(ctx, tr, cap=4000):
         n += 1
     ctx.count("sysinv:legs-judged", n)
     return n
+
+
+def check_trace2(ctx, tr, w):
+    """Hypotheses of the joint invariant for composite objects WITHOUT cells (lean/JF/Props/SystemInv2.lean) measured on a recorded
+    single-process run of that world (`fpcorr2.supported2`, two node levels):
+      * `CandsOK2`: every candidate time returned in a leg is a normalised finite time (integer quotient, remainder in [0, 1)) or `inf`,
+        and is not before the commit time of the preceding leg;
+      * no leg follows the end-of-run commit (`Reach2.step`'s `hgo`).
+    The kind/mode part of the step relation (`Commits2`) is measured by `modecorr`, the yields by `fpcorr2`."""
+    from harness import fpcorr2
+    meta = tr["meta"]
+    job = tr.get("job") or {}
+    if meta.get("levels") != 2 or not fpcorr2.supported2(w) or meta.get("number_cores") or job.get("mp") or job.get("resume"):
+        return 0
+    last_commit, pending, n, ended = None, {}, 0, False
+    for i, leg in enumerate(tr["legs"][:4000]):
+        case = {"ini": meta["ini"], "seed": meta["seed"], "leg": i, "job": job}
+        if ended:
+            ctx.disagree("sysinv2.no-leg-after-end-of-run", case, "run ended", "another leg")
+            break
+        for h, t in leg["times"].items():
+            q, r = float(t[0]), float(t[1])
+            pending[h] = (q, r)
+            inf_ = q == float("inf")
+            if not inf_ and not (q == int(q) and 0.0 <= r < 1.0):
+                ctx.disagree("sysinv2.CandsOK2 (candidate time not normalised)", dict(case, handler=meta["handlers"][h][0]),
+                             "integer quotient, remainder in [0,1)", [q, r])
+            if last_commit is not None and (q, r) < last_commit:
+                ctx.disagree("sysinv2.CandsOK2 (a pushed candidate time is before the preceding commit)",
+                             dict(case, handler=meta["handlers"][h][0]), list(last_commit), [q, r])
+        ch = leg["chosen"]
+        if ch in pending:
+            last_commit = pending[ch]
+        if "EndOfRun" in meta["handlers"][ch][0]:
+            ended = True
+        for h in leg["trashed"]:
+            pending.pop(h, None)
+        n += 1
+    ctx.count("sysinv2:legs-judged", n)
+    return n
